@@ -136,6 +136,69 @@ def obligations(tier):
                         + unit_norm_pairs(S, "[zero budget] normalize_factors=True", r["factors"]))
             add(fn, f"N={N},normalize_factors=True,n_iter_max=0,user init", cp_w_setup(N), call0, post0, dict(order=N, normalize_factors=True, n_iter_max=0, init="CPTensor"),
                 "shapes ∧ normalisation contract on every loop-exit path", side_nonzero=True)
+    # ---- ... and without normalisation a user initialisation with non-unit weights still comes back with all-ones weights (the weights are absorbed, not kept)
+    for N in range(2, maxN + 1):
+        for fn, func, module, stubs in cp_algos:
+            for budget in (0, 1):
+                def call1(I, func=func, module=module, stubs=stubs, budget=budget):
+                    S = I["_S"]
+                    Rr = R if S.name == "sym" else I["fs"][0].shape[1]
+                    init = CPTensor((I["w"], list(I["fs"])))
+                    if budget == 0:
+                        cp = func(I["X"], Rr, n_iter_max=0, init=init, normalize_factors=False)
+                        return dict(weights=cp.weights, factors=list(cp.factors))
+                    _CUR["S"] = S if S.name == "num" else None
+                    cut = LoopCut(func)
+                    with stubbed(module, **(stubs or {})):
+                        st = cut.prefix(I["X"], Rr, init=init, normalize_factors=False, return_errors=True)
+                        st["factors"] = list(st["factors"])
+                        kind, st2 = cut.body(st, 0)
+                        ret = cut.suffix(st2)
+                    cp = ret[0] if isinstance(ret, tuple) and isinstance(ret[0], CPTensor) else ret
+                    return dict(weights=cp.weights, factors=list(cp.factors))
+                add(fn, f"N={N},normalize_factors=False,user init with weights,{'n_iter_max=0' if budget == 0 else 'one sweep'}", cp_w_setup(N), call1,
+                    lambda S, I, r: [("normalize_factors=False: weights are all ones", r["weights"], S.ones([S.shape(I["w"])[0]])),
+                                     ("factor shapes", [tuple(S.shape(f)) for f in r["factors"]], [tuple(S.shape(f)) for f in I["fs"]])],
+                    dict(order=N, normalize_factors=False, init="CPTensor with weights", budget=budget), "shapes ∧ normalisation contract on every loop-exit path", side_nonzero=True)
+    # ---- PARAFAC2: a sweep from an iterate with arbitrary weights returns all-ones weights without normalisation, unit-norm factors with it
+    import tensorly.parafac2_tensor as p2t
+    for nI in (2,):
+        for normalize in (False, True):
+            def p2_setup(S, nI=nI):
+                K = atom("K")
+                return dict(_S=S, Xs=[S.input(f"X{i}", [atom(f"J{i}"), K]) for i in range(nI)], w=S.input("w", [R]), A=S.input("A", [nI, R]), B=S.input("B", [R, R]), Cc=S.input("Cm", [K, R]),
+                            P=[S.input(f"P{i}", [atom(f"J{i}"), R]) for i in range(nI)], K=K)
+            def p2_call(I, normalize=normalize):
+                from .c03 import _noval
+                S = I["_S"]
+                sym = S.name == "sym"
+                Rr = R if sym else I["A"].shape[1]
+                real_parafac = _p2.parafac
+                def inner(X, rank, init=None, **kw):
+                    if sym:
+                        return CPTensor((None, [G.opaque_tensor("INNER", list(f.shape), f.dtype) for f in init[1]]))
+                    out = real_parafac(X, rank, init=init, **kw)
+                    for f in out[1]:
+                        S.record("INNER", f)
+                    return out
+                def go():
+                    cut = LoopCut(_p2.parafac2)
+                    with stubbed(_p2, svd_interface=make_svd_stub(S, None, square_u=True), parafac=inner, _validate_parafac2_tensor=p2t._validate_parafac2_tensor,
+                                 initialize_decomposition=lambda *a, **k: (I["w"], [I["A"], I["B"], I["Cc"]], list(I["P"]))):
+                        st = cut.prefix(list(I["Xs"]), Rr, return_errors=True, tol=0, normalize_factors=normalize)
+                        st["factors"] = list(st["factors"])
+                        st["rec_errors"] = []
+                        kind, st2 = cut.body(st, 0)
+                        ret = cut.suffix(st2)
+                    t = ret[0]
+                    return dict(weights=t.weights, factors=list(t.factors))
+                return _noval(p2t, go)
+            def p2_post(S, I, r, normalize=normalize):
+                if normalize:
+                    return unit_norm_pairs(S, "normalize_factors=True", r["factors"])
+                return [("normalize_factors=False: weights are all ones (the running weights are folded into B, not kept)", r["weights"], S.ones([S.shape(I["w"])[0]]))]
+            add("_parafac2:parafac2", f"slices={nI},normalize_factors={normalize},sweep from arbitrary weights", p2_setup, p2_call, p2_post, dict(n_slices=nI, normalize_factors=normalize),
+                "normalisation contract after a sweep", side_nonzero=True, assumptions=lambda I: [R <= I["K"]] + [R <= x.shape[0] for x in I["Xs"]])
     # ---- coupled matrix-tensor factorisation: both returned models are normalised and still represent the iterate
     import tensorly.decomposition._cmtf_als as _cm
     def cm_setup(S):
@@ -246,19 +309,21 @@ def obligations(tier):
             return dict(_S=S, X=S.input("X", n), core=S.input("G", r), fs=[S.input(f"U{k}", [n[k], r[k]]) for k in range(N)], n=n, r=r)
         return setup
     for N in range(3, maxN + 1):
-        for fixed in ([N - 1, 0], [1, 0], [0, N - 1]):
-            def call(I, fixed=fixed, N=N):
+        for fixed, full, budget in [(f, fl, b) for f in ([N - 1, 0], [1, 0], [0, N - 1], [0], [1]) for fl in (False, True) for b in (0, 1)]:
+            def call(I, fixed=fixed, N=N, full=full, budget=budget):
                 S = I["_S"]
-                rank = [I["r"][k] for k in range(N) if k not in fixed] if S.name == "sym" else [I["fs"][k].shape[1] for k in range(N) if k not in fixed]
+                # the rank is given for the free modes only, or - as documented - with one entry per mode of the tensor
+                rank = [I["r"][k] if S.name == "sym" else I["fs"][k].shape[1] for k in range(N) if full or k not in fixed]
                 with stubbed(_tk, svd_interface=make_svd_stub(S, None)):
-                    t = _tk.tucker(I["X"], rank, fixed_factors=list(fixed), n_iter_max=0, init=(I["core"], list(I["fs"])))
+                    t = _tk.tucker(I["X"], rank, fixed_factors=list(fixed), n_iter_max=budget, tol=0, init=(I["core"], list(I["fs"])))
                 return dict(core=t.core, factors=list(t.factors))
             def post(S, I, r, fixed=fixed, N=N):
                 out = [(f"factor {k} has shape (n_k, r_k)", tuple(S.shape(r["factors"][k])), tuple(S.shape(I["fs"][k]))) for k in range(N)]
                 out += [(f"fixed factor {m} is returned at mode {m}", r["factors"][m], I["fs"][m]) for m in fixed]
                 out.append(("core shape ≡ ranks", tuple(S.shape(r["core"])), tuple(S.shape(f)[1] for f in I["fs"])))
                 return out
-            add("_tucker:tucker", f"N={N},fixed_factors={fixed} (zero budget)", tkf_setup(N), call, post, dict(order=N, fixed_factors=fixed), "fixed factors keep their modes, in any listing order",
+            add("_tucker:tucker", f"N={N},fixed_factors={fixed},rank list {'per mode' if full else 'of the free modes'},n_iter_max={budget}", tkf_setup(N), call, post, dict(order=N, fixed_factors=fixed, rank_list="per mode" if full else "free modes", n_iter_max=budget),
+                "fixed factors keep their modes, in any listing order; requested ranks honoured",
                 assumptions=lambda I: [I["r"][k] <= I["n"][k] for k in range(len(I["n"]))])
     # ====================================================================== TT-SVD / TT-matrix / TR-SVD: shapes, boundary ranks, left-orthogonality, conformance
     def tt_setup(N):
